@@ -126,7 +126,7 @@ fn check_code(code: &u16, case: &mut Case) -> Result<(), Fail> {
 }
 
 /// (record type code, shape 0=content 1=empty, class code, origin 0=constructed 1=parsed)
-type MatchIn = (u16, u8, u16, u8);
+type MatchIn = (u16, u8, u16, u8); // shape 2 = NULL variant carrying the code; origin 2/3 = owned copy of constructed/parsed
 
 fn match_codes() -> Vec<u16> {
     let mut v: Vec<u16> = iana().iter().map(|e| e.0).filter(|c| *c != 41).collect();
@@ -138,9 +138,9 @@ fn match_codes() -> Vec<u16> {
 fn enum_match(_t: Tier, shard: usize, n: usize, f: &mut dyn FnMut(MatchIn) -> bool) {
     let mut i = 0;
     for code in match_codes() {
-        for shape in 0..2u8 {
+        for shape in 0..3u8 {
             for class in CLASSES {
-                for origin in 0..2u8 {
+                for origin in 0..4u8 {
                     i += 1;
                     if mine(i, shard, n) && !f((code, shape, class, origin)) {
                         return;
@@ -156,6 +156,13 @@ fn check_match(input: &MatchIn, case: &mut Case) -> Result<(), Fail> {
     case.nontrivial = true;
     let rdata = if shape == 1 {
         ARData::Empty { code }
+    } else if shape == 2 {
+        // the catch-all NULL variant may be constructed with any code, also a supported one
+        if origin % 2 == 1 && is_typed(code) {
+            // (on the wire such a record is indistinguishable from the typed one: construction only)
+            return Ok(());
+        }
+        ARData::Unknown { code, data: Bytes(vec![0xde, 0xad]) }
     } else if is_typed(code) {
         default_typed(code)
     } else {
@@ -167,13 +174,21 @@ fn check_match(input: &MatchIn, case: &mut Case) -> Result<(), Fail> {
     let wire = encode_message(&ap, &EncOpts::plain());
     let built;
     let parsed;
-    let rr = if origin == 0 {
+    let owned;
+    let rr = if origin % 2 == 0 {
         built = lib("build_record", || build_record(&rec))?.map_err(|e| Fail::new("harness:build", e))?;
         &built
     } else {
         parsed = parse(&wire)?.map_err(|e| Fail::new("c18:parse", format!("reference encoding of type {} rejected: {:?}", code, e)))?;
         ensure!(parsed.answers.len() == 1, "c18:parse", "expected one answer");
         &parsed.answers[0]
+    };
+    // origins 2 and 3: the owned copy of the constructed / parsed record
+    let rr = if origin >= 2 {
+        owned = lib("into_owned", || rr.clone().into_owned())?;
+        &owned
+    } else {
+        rr
     };
     case.class(format!("origin{}", origin));
     // reported type
@@ -205,7 +220,7 @@ fn check_match(input: &MatchIn, case: &mut Case) -> Result<(), Fail> {
 pub fn def() -> CheckDef {
     CheckDef {
         id: "C18",
-        rule: "exhaustive: all 65536 codes through TYPE/QTYPE/CLASS/QCLASS conversions against an independently typed IANA table; (record type: 40 supported + NULL + 9 unknown codes) x {content, empty} x 5 classes x {constructed, parsed} x (41 named question types + ANY + MAILB + own unknown type) and x 6 question classes. Non-trivial = supported/special/low code; every matching case",
+        rule: "exhaustive: all 65536 codes through TYPE/QTYPE/CLASS/QCLASS conversions against an independently typed IANA table; (record type: 40 supported + NULL + 9 unknown codes) x {content, empty, catch-all NULL variant carrying the code} x 5 classes x {constructed, parsed, owned copy of each} x (41 named question types + ANY + MAILB + own unknown type) and x 6 question classes. Non-trivial = supported/special/low code; every matching case",
         assumptions: vec![
             "IANA RR TYPE registry values typed into checks/c18.rs",
             "the statement is silent on MAILA/AXFR/IXFR matching; not checked",
